@@ -120,6 +120,7 @@ class Case:
 # ------------------------------------------------------------------------------------------------
 # strace output -> canonical step names
 
+READ_ONLY = ("open", "stat", "readdir", "getlk", "fstat", "read", "access")
 LINE = re.compile(r"^(\d+)\s+(\w+)\((.*)\)\s+=\s+(-?\d+|\?)(.*)$")
 INIT_MODE = {"ctx": "0200", "st": "0200", "ol": "0200", "det": "0600", "tag": "0600"}
 
@@ -475,6 +476,10 @@ def kill_points(ctx, label, setup_impl, victim_args, setup_model, victim_model, 
                 strace(c, tr, victim_args, inject=rec.at[k])
                 kc = canon_file(c, tr)
                 okpos = kc.events == msteps[:k] and kc.pending == msteps[k]
+                if not okpos:
+                    # the directory entries are stat'ed in directory order, which varies: the kill may land one read-only step off
+                    n = len(kc.events)
+                    okpos = kc.events == msteps[:n] and all(msteps[x].split(" ")[0] in READ_ONLY for x in range(min(n, k), max(n, k) + 1) if x < len(msteps))
             else:
                 strace(c, tr, victim_args)
                 kc = canon_file(c, tr)
